@@ -11,9 +11,6 @@ CLASS_KF = {
     "smpl-ranges": ("KF-C12-SMPL-RANGES", {"inst-ranges-default", "inst-ranges-detune"}),
     "smpl-detune": ("KF-C12-SMPL-DETUNE", {"inst-detune", "inst-ranges-detune"}),
     "aiff-inst": ("KF-C12-AIFF-INST", {"inst-missing"}),
-    "info-2046": ("KF-C12-INFO-2046", {"str-*"}),
-    "aiff-8190": ("KF-C12-AIFF-8190", {"str-*"}),
-    "caf-16k": ("KF-C12-CAF-16K", {"str-*"}),
     "header-cache": ("C13-header-cache", {"str-*", "reopen-null", "bext-missing", "cart-missing", "cues-missing", "inst-missing", "audio"}),
     "aiff-sanitize": ("KF-C12-AIFF-SANITIZE", {"str-2", "str-3"}),
 }
@@ -101,8 +98,14 @@ def chmap_cmd(vals, h="h0"):
 
 
 ENDINGS = [b"\r\n", b"\n", b"\r", b"\n\r"]
-STR_LENS = {"wav": [1, 2, 3, 4, 255, 256, 257, 1000, 2044, 2045], "wavex": [1, 2, 255, 256, 2045], "rf64": [1, 2, 255, 256, 2044, 2045],
-            "rifx": [1, 2, 255, 256, 2045], "aiff": [1, 2, 3, 255, 256, 2046, 2047, 2048, 8188, 8189], "caf": [1, 2, 255, 256, 2046, 2047, 2048, 16000]}
+# every length class up to the one limit the containers have: the 100 KiB header cache (a script whose header estimate comes
+# within M.HEADER_MARGIN of it is in the known class `header-cache`).  2045..2048 / 8188..8192 / 16 Ki are the former buffer sizes of
+# the INFO reader, the AIFF reader and the CAF writer; 51200 is where the header cache used to refuse a single item.
+STR_LENS = {"wav": [1, 2, 3, 4, 255, 256, 257, 1000, 2044, 2045, 2046, 2047, 2048, 4096, 20000, 51199, 51200, 51201, 90000],
+            "wavex": [1, 2, 255, 256, 2045, 2046, 2047, 30000, 70000], "rf64": [1, 2, 255, 256, 2044, 2045, 2046, 2048, 51201, 80000],
+            "rifx": [1, 2, 255, 256, 2045, 2046, 2049, 60000],
+            "aiff": [1, 2, 3, 255, 256, 2046, 2047, 2048, 8188, 8189, 8190, 8191, 8192, 8193, 16384, 51201, 90000],
+            "caf": [1, 2, 255, 256, 2046, 2047, 2048, 16000, 16366, 16367, 16368, 16384, 20000, 51201, 90000]}
 
 
 def gen(ctx):
@@ -129,7 +132,7 @@ def gen(ctx):
                 for ty in tys:
                     n = L if ty == big else rng.choice([1, 2, 7, 30])
                     if ty == 3:
-                        n = min(n, 2000)       # the suffix is added to it
+                        n = max(1, n - 40)     # the suffix is added to it
                     sets.append(S(ty, text(rng, n, ascii_only=(cont == "aiff" and ty in (2, 3)) or ty == 3)))
                 add("str-%s-%d-%d" % (cont, L, rep), "strings", cont, sets)
         for rep in range(6 if not thorough else 30):
@@ -253,6 +256,10 @@ def gen(ctx):
         K.append(("kf-late-grow-%s" % cont, cont, [bext_cmd(rng, b"short\n")], [bext_cmd(rng, lines_text(rng, 200, ENDINGS))]))
     K.append(("kf-header-cache-wav", "wav", [S(ty, text(rng, 2045, ascii_only=True)) for ty in (1, 2, 4, 5, 6, 7, 9, 16)] + [bext_cmd(rng, lines_text(rng, 9500, ENDINGS)),
               cart_cmd(rng, lines_text(rng, 16000, ENDINGS)), M.setcues_line("h0", cues(rng, 1000))], ()))
+    # what is left of the header-cache finding: strings that make the header longer than the 100 KiB buffer
+    for cont in strconts:
+        K.append(("kf-header-cache-%s-110000" % cont, cont, [S(1, b"T"), S(5, text(rng, 110000, ascii_only=True)), S(4, b"after")], ()))
+        K.append(("kf-header-cache-%s-2x60000" % cont, cont, [S(1, text(rng, 60000, ascii_only=True)), S(5, text(rng, 60000, ascii_only=True))], ()))
     for cont in ("wav", "rf64"):
         K.append(("kf-cart-16k-%s" % cont, cont, [cart_cmd(rng, b"x" * 16381 + b"\n"), S(1, b"T")], ()))
         K.append(("kf-late-grow-cart-%s" % cont, cont, [cart_cmd(rng, b"t")], [cart_cmd(rng, b"tag" * 50)]))
